@@ -1670,6 +1670,25 @@ def m_binary_search_by_key(ex, st, call):
     return go(st, 0, [])
 
 
+@model(r'^slice::partition_point$')
+def m_partition_point(ex, st, call):
+    """index of the first element for which the predicate is false (the slice is assumed partitioned, as the std contract requires)"""
+    r, f = call.args
+    v = deref(ex, st, r)
+    if not isinstance(v, VecV):
+        return None
+    n = len(v.items)
+
+    def go(s, k):
+        if k == n:
+            return ex.ret(s, call, Int(z3.BitVecVal(n, 64), False))
+
+        def cont(e_, s2, val):
+            return two_way(e_, s2, val.e, lambda s3: go(s3, k + 1), lambda s3: e_.ret(s3, call, Int(z3.BitVecVal(k, 64), False)))
+        return ex.invoke_callable(s, f, [Ref(r.addr, r.path + (('i', k),))], cont)
+    return go(st, 0)
+
+
 @model(r'^Option::is_none_or$')
 def m_is_none_or(ex, st, call):
     o, f = call.args
